@@ -201,6 +201,7 @@ def run(ctx):
         srcs = [m["dir"] for m in lay.mains]
         vis = sorted(k for k, v in enumerate(runs[0][1]["visited"]) if v)
         terms.append(("(%s, %s)" % (C.coq_list([C.coq_list([str(x) for x in l]) for l in g]), C.coq_list([str(s) for s in srcs])), "(Some %s)" % C.coq_list([str(x) for x in vis])))
+    same_name_chains(ctx, vh, work)
     shutil.rmtree(work, ignore_errors=True)
     ctx.sample({"files": layouts[0].files})
     ctx.coverage["compared_with_model"] = len(terms)
@@ -217,3 +218,48 @@ def run(ctx):
         mo = C.coq_eval_terms("c18_model", HEADER, ["disc_case %s" % terms[j][0]], scope="nat_scope")
         ctx.broke("K", "qmldir.rs populate_directories vs model/Modules.v", "model and implementation differ on %d layouts; first: graph/sources %s\nmodel=%s impl=%s"
                   % (len(bad), terms[j][0], mo[0], terms[j][1]))
+
+
+def same_name_chains(ctx, vh, work):
+    """components of the SAME name in different directories, each extending the one of the next directory (an explicit import wins over the own directory):
+    app/Btn.qml : Btn (of ../themed) : Btn (of ../base) : QPushButton.  The instance in app/Main.qml is ONE custom widget `Btn` extending `Btn`, and has the
+    properties of the Qt class at the end of the chain."""
+    base_classes = [("QPushButton", "text"), ("QGroupBox", "title"), ("QLabel", "text")]
+    cases, meta = [], []
+    k = 0
+    for depth in (2, 3, 4):
+        for (qt, prop) in base_classes:
+            for nested in (False, True):
+                k += 1
+                root = os.path.join(work, "sn%d" % k)
+                dirs = ["app"] + (["app/lvl%d" % j for j in range(1, depth)] if nested else ["lvl%d" % j for j in range(1, depth)])
+                files = {}
+                for j, d in enumerate(dirs):
+                    if j + 1 < len(dirs):
+                        rel = os.path.relpath(dirs[j + 1], d)
+                        files[os.path.join(d, "Btn.qml")] = 'import qmluic.QtWidgets\nimport "%s"\nBtn {\n}\n' % rel
+                    else:
+                        files[os.path.join(d, "Btn.qml")] = "import qmluic.QtWidgets\n%s {\n}\n" % qt
+                files["app/Main.qml"] = 'import qmluic.QtWidgets\nQWidget {\n    QVBoxLayout {\n        Btn {\n            %s: "x"\n            enabled: false\n        }\n    }\n}\n' % prop
+                for f, t in files.items():
+                    os.makedirs(os.path.dirname(os.path.join(root, f)), exist_ok=True)
+                    open(os.path.join(root, f), "w").write(t)
+                cases.append({"root": root, "sources": ["app/Main.qml"], "dirs": dirs})
+                meta.append((depth, qt, files))
+                ctx.dist("same-name-chain-%d" % depth)
+    out = C.harness_run(vh, "project", cases, timeout=300)
+    for (depth, qt, files), res in zip(meta, out):
+        ctx.count(("same-name", depth, qt, tuple(sorted(files))), True)
+        rep = {"files": files, "sources": ["app/Main.qml"]}
+        if not isinstance(res, dict) or "docs" not in res:
+            ctx.violation("discovery/translation does not terminate normally on a chain of same-named components: %s" % str(res)[:300], dict(rep, impl_output=str(res)[:1000]))
+            continue
+        d = res["docs"][0]
+        errs = [x for x in d.get("diags", []) if x["kind"] == "error"]
+        if errs or not d.get("ui"):
+            ctx.violation("a component extending a same-named component of an imported directory (chain of %d) is rejected: %s" % (depth, errs[0]["msg"] if errs else "no form"),
+                          dict(rep, impl_output=errs, theorem_or_correspondence="inherits properties / S"))
+            continue
+        got = customwidgets(d["ui"])
+        if got != [("Btn", "Btn", "btn.h")]:
+            ctx.violation("<customwidgets> for a chain of same-named components: %r, expected one entry Btn extends Btn (btn.h)" % got, dict(rep, impl_output=d["ui"], theorem_or_correspondence="C18_customwidgets_once / S"))
